@@ -64,12 +64,16 @@ type cfg struct {
 	Pre      bool     // lowest-latency only: every backend already has a recorded latency
 	Host     string   // virtual host sent by the client
 	Two      bool     // two routes ("*.x" and "*.y") with the same strategy and the same backend list
+	Spell2   []string // two-route configs: the second route spells the same backends differently
 }
 
 func (c cfg) name() string {
 	n := fmt.Sprintf("bfs:%s|%s|lat%d|pre=%v|%q", c.Strategy, strings.Join(c.Backends, ","), c.Lat, c.Pre, c.Host)
 	if c.Two {
 		n += "|two-routes"
+	}
+	if c.Spell2 != nil {
+		n += "|second-route-spells-" + strings.Join(c.Spell2, ",")
 	}
 	return n
 }
@@ -127,7 +131,11 @@ func newWorld(c cfg) *world {
 	w := &world{c: c, sm: NewStrategyManager(), measured: map[string]time.Duration{}, rrAligned: [2]bool{true, true}}
 	w.routes = []config.Route{{Host: []string{"*.x"}, Backend: append([]string(nil), c.Backends...), Strategy: c.Strategy}}
 	if c.Two {
-		w.routes = append(w.routes, config.Route{Host: []string{"*.y"}, Backend: append([]string(nil), c.Backends...), Strategy: c.Strategy})
+		b2 := c.Backends
+		if c.Spell2 != nil {
+			b2 = c.Spell2
+		}
+		w.routes = append(w.routes, config.Route{Host: []string{"*.y"}, Backend: append([]string(nil), b2...), Strategy: c.Strategy})
 	}
 	w.list = c.list()
 	w.distinct = distinctCanon(w.list)
@@ -232,8 +240,13 @@ func (w *world) attempt(o op) (failKey, failDesc, obs string) {
 			}
 		}
 	}
-	// 3. strategy order (only where identities are unambiguous)
-	if w.dupFree {
+	// 3. strategy order, on backend identities: "a", "a:25565" and "A:25565" are ONE backend, whatever the spelling
+	// (round-robin only on lists without duplicate identities: a backend listed twice has no defined slot)
+	{
+		sfx := ""
+		if !w.dupFree || w.c.Spell2 != nil {
+			sfx = "/backend-listed-under-two-spellings"
+		}
 		tried := map[string]bool{}
 		for j, d := range dialed {
 			c := refCanon(d)
@@ -249,7 +262,7 @@ func (w *world) attempt(o op) (failKey, failDesc, obs string) {
 					return "order/sequential", ctx + fmt.Sprintf(": try #%d is %s, config order says %s", j+1, c, remaining[0]), ""
 				}
 			case config.StrategyRoundRobin:
-				if j == 0 && w.rrAligned[o.Route] {
+				if j == 0 && w.rrAligned[o.Route] && w.dupFree {
 					if want := w.distinct[w.attempts[o.Route]%len(w.distinct)]; c != want {
 						return "order/round-robin", ctx + fmt.Sprintf(": attempt #%d on this route (all earlier ones took one backend each) starts at %s, the route's rotation says %s", w.attempts[o.Route]+1, c, want), ""
 					}
@@ -262,7 +275,7 @@ func (w *world) attempt(o op) (failKey, failDesc, obs string) {
 					}
 				}
 				if w.openCount(c) != min {
-					return "order/least-connections", ctx + fmt.Sprintf(": try #%d is %s with %d open connections, an untried backend has %d", j+1, c, w.openCount(c), min), ""
+					return "order/least-connections" + sfx, ctx + fmt.Sprintf(": try #%d is %s with %d open connections, an untried backend has %d", j+1, c, w.openCount(c), min), ""
 				}
 			case config.StrategyLowestLatency:
 				unmeasured := false
@@ -276,10 +289,10 @@ func (w *world) attempt(o op) (failKey, failDesc, obs string) {
 				}
 				l, ok := w.measured[c]
 				if unmeasured && ok {
-					return "order/lowest-latency-unmeasured-first", ctx + fmt.Sprintf(": try #%d is the measured %s although an untried backend is unmeasured (measured=%v)", j+1, c, w.measured), ""
+					return "order/lowest-latency-unmeasured-first" + sfx, ctx + fmt.Sprintf(": try #%d is the measured %s although an untried backend is unmeasured (measured=%v)", j+1, c, w.measured), ""
 				}
 				if !unmeasured && l != best {
-					return "order/lowest-latency", ctx + fmt.Sprintf(": try #%d is %s (%v) although an untried backend has %v (measured=%v)", j+1, c, l, best, w.measured), ""
+					return "order/lowest-latency" + sfx, ctx + fmt.Sprintf(": try #%d is %s (%v) although an untried backend has %v (measured=%v)", j+1, c, l, best, w.measured), ""
 				}
 			}
 			tried[c] = true
@@ -309,7 +322,7 @@ func (w *world) counters() (failKey, failDesc string) {
 	if got := w.sm.ActiveConnections(); int(got) != len(w.open) {
 		return "counters/active-connections", fmt.Sprintf("strategy=%s backends=%q: ActiveConnections()=%d, %d forwarded connections are open", w.c.Strategy, w.list, got, len(w.open))
 	}
-	if w.dupFree {
+	if w.dupFree && w.c.Spell2 == nil { // the internal per-spelling counters are judged by their effect (order/least-connections) on other lists
 		for _, raw := range w.list {
 			var got uint32
 			if c := w.sm.getCounter(raw); c != nil {
@@ -413,6 +426,8 @@ func configs(thorough bool) []cfg {
 			out = append(out, cfg{Strategy: st, Backends: l, Host: "q.x", Two: true})
 		}
 	}
+	// ... and the same backends spelled differently by the second route (default port, letter case)
+	out = append(out, cfg{Strategy: config.StrategyLeastConnections, Backends: []string{"a:25565", "b:1"}, Host: "q.x", Two: true, Spell2: []string{"a", "B:1"}})
 	return out
 }
 
@@ -527,8 +542,16 @@ func trackOracle(x *sched.X, sm *StrategyManager, t *tally, backends ...string) 
 			if ctr := sm.getCounter(b); ctr != nil {
 				c = int(ctr.Load())
 			}
-			if c < t.perOpen[b] || c > t.perOpen[b]+t.perBusy[b] {
-				x.Fail("counters/per-backend-off", "least-connections counter of %s is %d while %d connections to it are open (%d calls in progress)", b, c, t.perOpen[b], t.perBusy[b])
+			// per backend, whatever the spelling: "a" and "A:25565" are one backend with one load figure
+			open, busy := 0, 0
+			for _, o := range backends {
+				if refCanon(o) == refCanon(b) {
+					open += t.perOpen[o]
+					busy += t.perBusy[o]
+				}
+			}
+			if c < open || c > open+busy {
+				x.Fail("counters/per-backend-off", "least-connections counter of %s is %d while %d connections to that backend are open (%d calls in progress)", b, c, open, busy)
 			}
 		}
 	})
